@@ -1017,7 +1017,7 @@ def _bare(v):
         return v
 
 
-def _analyse_lookup1(p, obs, side=()):
+def _analyse_lookup1(p, obs, aside=()):
     node, s = p.sites[0]
     L = _Lookup()
     obs = [_bare(o) for o in obs]
@@ -1113,7 +1113,7 @@ def _analyse_lookup1(p, obs, side=()):
         L.res["recheck"] = ("ok", None)
     elif find(obs, lambda x: any(same(x, k) for k in found)):
         L.res["recheck"] = ("error", "the keys found are read back but not in a recognised ==/!= comparison with the requested keys")
-    elif side or any(same(x, L.N) for x in walk(obs, lambda x: same(x, L.ss))):
+    elif aside or any(same(x, L.N) for x in walk(obs, lambda x: same(x, L.ss))):
         # the requested keys are looked at again after the search (np.isin(requested, table), a set operation, ...): possibly a membership
         # test of another kind - nothing this rule can prove either way
         L.res["recheck"] = ("error", "the requested keys are used again after the search, in a form this rule does not know as the exact re-check")
@@ -1195,6 +1195,9 @@ def _anymis(p, L):
         a = app(c, "all")
         if a and L.is_match(a[0]):
             return not d
+        a = app(c, "any") or app(c, "all")
+        if a and (L.is_match(a[0]) or L.is_mismatch(a[0])):
+            continue                # any(found == requested) / all(found != requested): understood, and no statement about `some key missing`
         if find(c, lambda y: L.is_eq(y) or L.is_ne(y) or any(same(y, k) for k in L.found)):
             odd = True
     return "odd" if odd else None
@@ -1280,8 +1283,8 @@ def _same_selection(a, b):
 
 
 def _full_slice(q):
-    s = app(q, "slice")
-    return bool(s) and all(sym_of(z) == "None" for z in s)
+    s = app(q, "slice") or app(q, "call:slice")           # the index `:` or the object slice(None)
+    return bool(s) and all(not isinstance(z, str) and sym_of(z) == "None" for z in s)
 
 
 def _label_rows(ix):
@@ -1299,7 +1302,8 @@ def _label_rows(ix):
                 x, labels = a[0], False
                 continue
             if i and len(i) == 2 and head(i[1]) != "tuple":
-                sels.append(i[1])
+                if not _full_slice(i[1]):
+                    sels.append(i[1])           # IX[:] selects every label
                 x = i[0]
                 continue
             return None
@@ -1313,7 +1317,8 @@ def _label_rows(ix):
                         sel = t[0]
             if head(sel) == "tuple" or sym_of(sel) is not None and sym_of(sel).startswith("'"):
                 return None             # a column selection / a 2-D selection: not a selection of rows
-            sels.append(sel)
+            if not _full_slice(sel):
+                sels.append(sel)
             x = base
             continue
         if unfn_m(x) is not None:
@@ -1762,6 +1767,9 @@ def _elem_test(c):
         m = _is_call(x, ("max", "amax"), ["a"])
         if m and m.get("a") is not None and const_of(y) is not None:
             return "max", m["a"], op, const_of(y)
+        m = _is_call(x, ("min", "amin"), ["a"])
+        if m and m.get("a") is not None and const_of(y) is not None:
+            return "min", m["a"], op, const_of(y)         # understood; says nothing about the largest element
     return None
 
 
@@ -2226,7 +2234,7 @@ def r4_expanddof(ctx):
         tests = [(c, d, _exceeds(c)) for c, d in ((_last_axis(c), d) for c, d, _ in t[0].atoms() if c is not None) if any(contains(c, x) for x in cols)]
         if any(e is not None and any(same(e[0], x) for x in cols) and e[1] <= 6 and (d != e[2]) is False for c, d, e in tests):
             continue
-        if any(e is None for c, d, e in tests):
+        if any(e is None and _elem_test(c) is None for c, d, e in tests):
             odd = odd or t          # the components are tested in a form this rule does not read
         else:
             bad = bad or t
@@ -2504,7 +2512,11 @@ EXPLANATION = ("Static: the USET bit-mask table is the value mkusetmask returns,
                "mask, outputs in (D1, D2) order, keys compared in np.result_type of both inputs); expanddof's guards, the order of its digit / id "
                "expansion, and - decided over a finite world of (ndim, columns) / sizes from the tests each regime took - that only an empty request "
                "gives no rows and only a request without a component column is expanded as ids; index2slice's stop/None boundary and its empty slice. "
-               "Tests on the two masks of mksetpv are decided over a finite world of bit patterns that includes the bits of every constant they mention.")
+               "Tests on the two masks of mksetpv are decided over a finite world of bit patterns that includes the bits of every constant they mention. "
+               "In mkdofpv the row labels the table keys are read from are normalised to (table, row selections): uset.loc[m].index, uset[m].index, "
+               "uset.iloc[flatnonzero(m)].index and uset.index[m] are one value; a level addressed by position is named through the layout "
+               "make_uset gives the labels (names=['id', 'dof']). A failed comparison is recorded as not decided (exit 2), never as a violation, "
+               "when the evaluator skipped a block that holds a raise / return (the regimes are then incomplete).")
 MANIFEST = {
     "text": "Partial claim decided statically: the mask table is a consistent encoding of the documented set lattice for every possible USET word "
             "(248 pair obligations), agrees with the NDDL bit table, op2 clears exactly the S bit on s-set DOF, no other module defines a mask; "
